@@ -900,10 +900,7 @@ func invariantHolds(p *core.Prog, f *core.Func, mentions []string, depth int) st
 			continue
 		}
 		for _, fc := range e.Facts() {
-			if fc.Tag != nil {
-				continue
-			}
-			if x, isNil, isCmp := core.NilCompare(info, fc.Expr); isCmp && isNil == fc.Truth {
+			if x, isNil, isCmp := core.NilCompare(info, fc.Expr); fc.Tag == nil && isCmp && isNil == fc.Truth {
 				// (c)
 				cx := canon(x)
 				for _, m := range mentions {
@@ -960,6 +957,9 @@ func invariantHolds(p *core.Prog, f *core.Func, mentions []string, depth int) st
 			}
 			// (a) - the guard may be written on locals that hold the mentioned quantities (keyLen := len(key))
 			s := canon(fc.Expr)
+			if fc.Tag != nil {
+				s = canon(fc.Tag) + " == " + s // a case of `switch <tag>`
+			}
 			sx := p.CanonText(f.RootKey(), expandLocals(f, fc.Expr, 0))
 			all := true
 			for _, m := range mentions {
